@@ -10,12 +10,13 @@ RULE = ("one seed-determined corpus of encode cases (values of every serialisabl
         "(quick: 4 of the 8 wire-affecting combinations; thorough: all 8) and compared transcript-for-transcript across configurations and with the "
         "model. Non-trivial = distinct case with a non-error answer")
 ASSUMPTIONS = ["std and arbitrary do not appear in any cfg on a declaration (kernel-checked on the regenerated declarations); they are additionally built at the all-on corner by C19"]
-TECHNIQUE = "Coq proof: (1) kernel obligation that for all 32x32 pairs of feature sets f <= f' the regenerated declarations under f' extend those under f; (2) theorem, by induction over the codec, that under this extension relation every value well-typed in the smaller configuration has the identical encoding in the larger one; cross-build differential run for the decode half"
+TECHNIQUE = "Coq proof: (1) kernel obligation that for all 32x32 pairs of feature sets f <= f' the regenerated declarations under f' extend those under f; (2) theorems, by induction over the codec, that under this extension relation every value well-typed in the smaller configuration has the identical encoding in the larger one, and that its encoding decodes in the larger configuration to the same value with the added members absent; cross-build differential run"
 LEVEL_TEXT = ("Kernel-checked on every run: for all pairs of feature sets the declarations regenerated from /repo under the larger set extend those under the smaller one (same keys, wire types, "
-              "optionality and order for common members; added members optional and not emitted when unset; capacities only grow), and std/arbitrary change nothing. Theorem "
-              "(coq/Proofs/MonoP.v ser_mono, Properties/C16.v c16_encoding_independent_of_features): for ANY value well-typed in the smaller configuration, of any size and nesting, encode gives "
-              "the same bytes in the larger configuration; c16_common_message_decodes_in_both adds the round trip. The decode half for messages (equal values up to absent added members) is "
-              "decided by the cross-build differential run: the same encode/decode corpus run under every build must produce identical transcripts.")
+              "optionality and order for common members; added members optional and not emitted when unset; capacities only grow), and std/arbitrary change nothing. Theorems "
+              "(coq/Proofs/MonoP.v, LiftP.v; Properties/C16.v): c16_encoding_independent_of_features - for ANY value well-typed in the smaller configuration, of any size and nesting, encode gives "
+              "the same bytes in the larger configuration; c16_common_message_decodes_in_both - that message decodes in the smaller configuration to the value and in the larger one to lift of it "
+              "(every common member keeps its value, every added member is reported absent; lifting into the same configuration is the identity). Messages that are not canonical encodings (other "
+              "key orders, unknown members) are covered by the cross-build differential run: the same encode/decode corpus run under every build must produce identical transcripts.")
 
 
 def feature_sets(tier):
